@@ -36,7 +36,7 @@ def quant(x, e, tol):
 def qvec(xs, es, rtol=1e-9):
     xs = np.asarray(xs, dtype=float).ravel()
     es = list(es)
-    scale = max([1.0] + [abs(float(e)) for e in es] + [abs(float(x)) for x in xs if math.isfinite(x)])
+    scale = max([1.0] + [abs(float(e)) for e in es if e is not None] + [abs(float(x)) for x in xs if math.isfinite(x)])
     tol = rtol * scale
     if len(xs) != len(es):
         return [NANQ] * max(len(es), 1)
